@@ -15,6 +15,7 @@ CONSTANTS
   MaxOpens = 2
   MaxResp = 4
   MaxSC = 1
+  Label = FALSE
 INIT Init
 NEXT Next
 VIEW View
@@ -23,10 +24,8 @@ INVARIANT JarAgrees
 INVARIANT AllRequestsOK
 INVARIANT HopsBounded
 INVARIANT TypeOK
-PROPERTY SentOK
-PROPERTY MethodBodyOK
-PROPERTY TargetOK
-PROPERTY HostOK
-PROPERTY FollowOK
-PROPERTY LoopOK
-PROPERTY HistoryOK
+INVARIANT SentOK
+INVARIANT MethodBodyOK
+INVARIANT HostOK
+INVARIANT FollowOK
+INVARIANT LoopOK
